@@ -7,7 +7,7 @@ import difflib
 import re
 from typing import Any
 
-from ..astutil import norm, short, where
+from ..astutil import Locals, names_in, norm, resolved_text, short, where
 from ..core import Report
 
 
@@ -85,19 +85,23 @@ def enum_builder_parity(rep: Report, ctx: Any, rid: str) -> None:
                  where(a, a.node) + " / " + where(b, b.node), lhs=left[:2], rhs=right[:2])
     # null extraction by identity in both
     for f in (a, b):
-        found = False
-        for n in ast.walk(f.node):
-            if isinstance(n, ast.Assign) and norm(n.targets[0]) == "unchecked_value_list":
-                found = True
-                v = n.value
-                ok = isinstance(v, ast.ListComp) and len(v.generators) == 1 and len(v.generators[0].ifs) == 1 and \
-                    isinstance(v.generators[0].ifs[0], ast.Compare) and isinstance(v.generators[0].ifs[0].ops[0], ast.IsNot) and \
-                    isinstance(v.generators[0].ifs[0].comparators[0], ast.Constant) and v.generators[0].ifs[0].comparators[0].value is None \
-                    and norm(v.elt) == norm(v.generators[0].target)
-                rep.check(ok, rid, f"{short(f)}::null-extraction",
-                          "members are dropped by something other than identity with None (falsy members such as 0 or '' would be "
-                          "treated as null)", where(f, n), lhs=norm(v)[:80], rhs="[v for v in enum if v is not None]")
-        rep.require(found, f"null extraction in {short(f)}")
+        # the extraction (any spelling, any form): the first assignment computed from the schema's `enum` list, which is read either
+        # directly (data.enum) or through locals bound to it (`enum = data.enum or []`)
+        lc = Locals(f.node)
+        enum_l = set(lc.bound_from(lambda v: v.startswith("data.enum"), "assign"))
+        cands = [n for n in ast.walk(f.node) if isinstance(n, ast.Assign) and not norm(n.value).startswith("data.enum") and isinstance(n.targets[0], ast.Name)
+                 and (names_in(n.value) & enum_l or "data.enum" in norm(n.value))]
+        cands.sort(key=lambda n: n.lineno)
+        rep.require(cands, f"null extraction in {short(f)}")
+        n = cands[0]
+        v = n.value
+        ok = isinstance(v, ast.ListComp) and len(v.generators) == 1 and len(v.generators[0].ifs) == 1 and \
+            isinstance(v.generators[0].ifs[0], ast.Compare) and isinstance(v.generators[0].ifs[0].ops[0], ast.IsNot) and \
+            isinstance(v.generators[0].ifs[0].comparators[0], ast.Constant) and v.generators[0].ifs[0].comparators[0].value is None \
+            and norm(v.elt) == norm(v.generators[0].target) and norm(v.generators[0].ifs[0].left) == norm(v.elt)
+        rep.check(ok, rid, f"{short(f)}::null-extraction",
+                  "members are dropped by something other than identity with None (falsy members such as 0 or '' would be "
+                  "treated as null)", where(f, n), lhs=norm(v)[:80], rhs="[v for v in enum if v is not None]")
 
 
 def enum_merge_parity(rep: Report, ctx: Any, rid: str) -> None:
